@@ -168,7 +168,7 @@ func check(c Case) error {
 				opts = append(opts, vuego.WithComponents())
 			}
 		}
-		err := q.RunOn(ctx, vuego.NewFS(q.FS(), opts...), c.Entry, w)
+		err := q.RunOn(ctx, vuego.NewFS(q.Mount(q.FS()), opts...), c.Entry, w)
 		if err == nil {
 			return fmt.Errorf("%s/%s: the registered processor rejected the document but render returned nil", c.Prog, c.Entry)
 		}
@@ -293,7 +293,7 @@ func check(c Case) error {
 				opts = append(opts, vuego.WithComponents())
 			}
 		}
-		err := q.RunOn(cctx, vuego.NewFS(q.FS(), opts...), c.Entry, w)
+		err := q.RunOn(cctx, vuego.NewFS(q.Mount(q.FS()), opts...), c.Entry, w)
 		if err != nil && len(w.Got) != 0 {
 			return fmt.Errorf("%s/%s: context cancelled during evaluation: render returned %v after writing %d bytes", c.Prog, c.Entry, err, len(w.Got))
 		}
